@@ -229,10 +229,6 @@ def run_tty(argv, cwd, env, typed, rows=33, cols=101, limit=120):
             os._exit(127)
     out, typed_at, stopped, t0, rc, fg = b"", None, {}, time.time(), None, None
     try:
-        try:
-            fg = os.tcgetpgrp(master)
-        except OSError:
-            fg = None
         while True:
             r, _, _ = select.select([master], [], [], 0.2)
             if r:
@@ -245,6 +241,10 @@ def run_tty(argv, cwd, env, typed, rows=33, cols=101, limit=120):
                 out += chunk
             if typed_at is None and b"TTY-READY" in out:
                 time.sleep(0.3)             # the program is now blocked in read(2) on the terminal
+                try:
+                    fg = os.tcgetpgrp(master)
+                except OSError:
+                    fg = None
                 os.write(master, typed + b"\x04")
                 typed_at = time.time()
             tree = proc_tree(pid)
@@ -289,7 +289,7 @@ def run_tty(argv, cwd, env, typed, rows=33, cols=101, limit=120):
             except OSError:
                 pass
         os.close(master)
-    return {"rc": rc, "out": out, "typed": typed_at is not None, "problem": stopped, "foreground": fg == pid}
+    return {"rc": rc, "out": out, "typed": typed_at is not None, "problem": stopped, "foreground": fg is None or fg == pid}
 
 
 TRUE_VALUES = {b"1", b"t", b"T", b"TRUE", b"true", b"True"}          # the property's "set to a true value"
@@ -927,7 +927,8 @@ def run_cfg(cfg, proj, m, conv, gocache, rng_payload):
     if cfg.get("tty"):
         if HOST[0] != "linux":
             return {"tty": None}
-        env = {k.decode("latin-1"): v.decode("latin-1") for k, v in dict(base, **own).items()}
+        env = dict(base)
+        env.update(own)
         typed = cfg["typed"].encode() + b"\n"
         return {"tty": {"mage": run_tty([m.bin] + args + ["tty"], cwd, env, typed), "binary": run_tty([proj.bin, "tty"], expect_cwd, env, typed)},
                 "typed": typed}
